@@ -11,9 +11,12 @@ import Chrono.Spec.UnambiguousSpec
   * `pf.rt <T> x<fmt> <value>` → the round trip: `x<text> <parse result>` | `err` | `panic`
   * `pf.spec <Numeric>`        → the parser's table row: `<width|max> <signed 0|1>`
   * `pf.sp <T> x<fmt> <value> | <observed round-trip result…>` → validation of the *specification*
-      against the implementation: `agree` if `Spec.Unambiguous`/`Spec.expressible` make no prediction
-      for this format and value, or if the prediction `ok (truncate_to_precision …)` is what the
-      implementation returned; `MISMATCH <prediction>` otherwise.  `pf.spq …` → `pred` | `nopred`.
+      against the implementation: `agree` if `Spec.Unambiguous`/`Spec.expressible` predict
+      `ok (truncate_to_precision …)` for this format and value and that is what the implementation
+      returned; `MISMATCH <prediction>` if it predicts something else; `nopred` if the specification
+      predicts nothing (so a case for which the harness REQUIRES a prediction refutes a narrowing of
+      the family).  `pf.spl …` is the lenient form for cases outside the required classes: `agree` also
+      where nothing is predicted.  `pf.spq …` → `pred` | `nopred`.
 -/
 namespace Chrono.Drv.ParseFrom
 open Chrono Chrono.M Chrono.Drv Chrono.M.ParseFrom
@@ -49,6 +52,25 @@ def showW (w : Format.W) : String :=
   | .ok none => "err"
   | .panic => "panic"
 
+/-- the specification against an observed round-trip result: `agree` if the prediction
+`ok (truncate_to_precision …)` is what was observed, `MISMATCH <prediction>` if it is not, and `noPred`
+where `Spec.Unambiguous`/`Spec.expressible`/`truncate_to_precision` make no prediction -/
+def specCheck (t f : String) (rest : List String) (noPred : String) : String :=
+  match target? t, hexDecode f with
+  | some t, some f =>
+    let vtoks := rest.takeWhile (· != "|")
+    let got := joinSp (rest.dropWhile (· != "|") |>.drop 1)
+    (match value? t vtoks with
+     | some v =>
+       let is := Strftime.items f
+       if Spec.Unambiguous is t ∧ Spec.expressible is v then
+         match Spec.truncate_to_precision is v with
+         | some v' => if s!"ok {showValue v'}" == got then "agree" else s!"MISMATCH ok {showValue v'}"
+         | none => noPred
+       else noPred
+     | none => bad)
+  | _, _ => bad
+
 def handle (op : String) (args : List String) : Option String :=
   match op, args with
   | "pf.p", [t, f, s] => some (match target? t, hexDecode f, hexDecode s with
@@ -70,20 +92,8 @@ def handle (op : String) (args : List String) : Option String :=
               | w => showW w)
           | none => bad)
       | _, _ => bad)
-  | "pf.sp", t :: f :: rest => some (match target? t, hexDecode f with
-      | some t, some f =>
-        let vtoks := rest.takeWhile (· != "|")
-        let got := joinSp (rest.dropWhile (· != "|") |>.drop 1)
-        (match value? t vtoks with
-         | some v =>
-           let is := Strftime.items f
-           if Spec.Unambiguous is t ∧ Spec.expressible is v then
-             match Spec.truncate_to_precision is v with
-             | some v' => if s!"ok {showValue v'}" == got then "agree" else s!"MISMATCH ok {showValue v'}"
-             | none => "agree"
-           else "agree"
-         | none => bad)
-      | _, _ => bad)
+  | "pf.sp", t :: f :: rest => some (specCheck t f rest "nopred")
+  | "pf.spl", t :: f :: rest => some (specCheck t f rest "agree")
   | "pf.spq", t :: f :: v => some (match target? t, hexDecode f with
       | some t, some f =>
         (match value? t v with
